@@ -14,9 +14,23 @@ import os
 import shutil
 from fractions import Fraction
 
-from harness import core
+from harness import core, facts
 
-RTOL = 1e-6
+RTOL = 1e-6          # histogram contents (yields, histosys templates, staterror / shapesys uncertainties: stored in the ROOT file, the
+                     # uncertainties through a relative form) and the log-likelihood
+XTOL = 1e-12         # numbers carried by XML attributes (normsys High / Low, Lumi, LumiRelErr -> sigma, NormFactor Val / Low / High): str(float) /
+                     # float(text) are exact, so only the rounding of sigma / lumi * lumi and lumi -+ 5 sigma is allowed for
+
+
+def extract(ctx):
+    """tie to the source: coq/gen/XmlGen.v is written from $VERIF_REPO/src/pyhf/{writexml,readxml,compat}.py on every run (harness/props/c18_tie.py)"""
+    from harness.props import c18_tie
+    return dict(translated_from_source=c18_tie.extract(ctx))
+
+
+def generate():
+    from harness.props import c18_tie
+    return c18_tie.generate()
 
 HEADER = '''From Coq Require Import ZArith QArith Qcanon String List.
 Require Import PV.Num PV.Run PV.Json PV.Xml PV.XmlThms PV.XmlCache PV.XmlInst.
@@ -170,26 +184,38 @@ def normalise(st):
     return [chans, obs, meas]
 
 
-def num_eq(a, b):
+def num_eq(a, b, rtol=RTOL):
     """a: Fraction or float (model / reference), b: float (implementation)"""
     if isinstance(a, Fraction):
-        return core.close(a, b, RTOL)
-    return core.close(core.frac(a), b, RTOL)
+        return core.close(a, b, rtol)
+    return core.close(core.frac(a), b, rtol)
 
 
-def diff(a, b, path=''):
-    """first difference between an expected structure a (Fractions/floats/str/None/bool/lists) and an observed one b"""
+def diff(a, b, path='', rtol=RTOL):
+    """first difference between an expected structure a (Fractions/floats/str/None/bool/lists) and an observed one b.
+    Numbers are compared with rtol; the data of a normsys modifier ([name, 'normsys', [lo, hi]]: XML attributes) and everything below a
+    measurement ([name, poi, parameter configs]) with XTOL"""
     if isinstance(a, (list, tuple)):
         if not isinstance(b, (list, tuple)) or len(a) != len(b):
             return '%s: %r vs %r' % (path, short(a), short(b))
+        if len(a) == 3 and isinstance(a[1], str) and a[1] == 'normsys':
+            rtol = min(rtol, XTOL)
         for i, (x, y) in enumerate(zip(a, b)):
-            r = diff(x, y, '%s/%s' % (path, x[0] if isinstance(x, list) and x and isinstance(x[0], str) else i))
+            r = diff(x, y, '%s/%s' % (path, x[0] if isinstance(x, list) and x and isinstance(x[0], str) else i), rtol)
             if r:
                 return r
         return None
     if isinstance(a, bool) or isinstance(b, bool) or a is None or b is None or isinstance(a, str) or isinstance(b, str):
         return None if a == b else '%s: %r vs %r' % (path, short(a), short(b))
-    return None if num_eq(a, b) else '%s: %s vs %r' % (path, float(a), b)
+    return None if num_eq(a, b, rtol) else '%s: %r vs %r' % (path, float(a), b)
+
+
+def diff_ws(a, b, path='ws'):
+    """model / expected workspace structure [channels, observations, measurements] against the observed one: the measurements (parameter configs:
+    XML attributes) with XTOL"""
+    if not (isinstance(a, (list, tuple)) and isinstance(b, (list, tuple)) and len(a) == 3 and len(b) == 3):
+        return diff(a, b, path)
+    return diff(a[0], b[0], path + '/0') or diff(a[1], b[1], path + '/1') or diff(a[2], b[2], path + '/2', XTOL)
 
 
 def short(x):
@@ -302,7 +328,7 @@ def property_diff(ws, re):
     for a, b in zip(ref['measurements'], ob['measurements']):
         for key, kind in (('name', 'measurement-name'), ('poi', 'poi'), ('fixed', 'constant-flags'), ('lumi', 'lumi-value'),
                           ('sigma', 'lumi-sigma'), ('lumi_inits', 'lumi-inits'), ('lumi_bounds', 'lumi-bounds'), ('normfactors', 'normfactor-settings')):
-            r = diff(a[key], b[key], 'measurement %s/%s' % (a['name'], key))
+            r = diff(a[key], b[key], 'measurement %s/%s' % (a['name'], key), XTOL)
             if r:
                 return (kind, r)
     return None
@@ -401,9 +427,20 @@ def gen_ws_once(rng):
     lumi_used = rng.random() < 0.6
     ints = rng.random() < 0.3
 
+    # full precision: numbers that need all 15-17 significant digits (ratios, sums of measured quantities), some workspaces at a small or a
+    # large overall magnitude -- any writer / reader step that is not exact on binary64 (a format with fewer digits, float32) shows up
+    full = (not ints) and rng.random() < 0.45
+    scale = rng.choice([1.0, 1.0, 1.0, 1.0 / 1024 / 7, 3.0e4 / 7]) if full else 1.0
+
+    def fr(x, nd):
+        """x rounded to nd decimals in the short-decimal workspaces, as it is in the full-precision ones"""
+        return x if full else round(x, nd)
+
     def num(lo, hi):
         if ints and rng.random() < 0.8:
             return rng.randrange(int(lo), int(hi) + 1)
+        if full:
+            return rng.uniform(lo, hi) * scale
         return round(rng.uniform(lo, hi), rng.choice([1, 3]))
     channels = []
     sys_pool = ['sys1', 'sys2', 'JES', 'alpha_x']
@@ -431,21 +468,21 @@ def gen_ws_once(rng):
                 """absolute per-bin uncertainty: any number as well -- mostly a positive fraction of |x|, sometimes zero on a filled bin,
                 sometimes negative, and zero or not on an empty bin"""
                 if x == 0:
-                    return 0.0 if rng.random() < 0.7 else 0.5
+                    return 0.0 if rng.random() < 0.7 else 0.5 * scale
                 r = rng.random()
                 if r < 0.08:
                     return 0.0
-                u = round(abs(x) * rng.uniform(lo, hi), 3)
+                u = fr(abs(x) * rng.uniform(lo, hi), 3)
                 return -u if r < 0.14 else u
             mods = []
             if s == 'sig':
                 mods.append({'name': 'mu', 'type': 'normfactor', 'data': None})
             for nm in rng.sample(sys_pool, rng.choice([0, 1, 1, 2])):
-                mods.append({'name': nm, 'type': 'normsys', 'data': {'hi': round(rng.uniform(1.01, 1.3), 3), 'lo': round(rng.uniform(0.7, 0.99), 3)}})
+                mods.append({'name': nm, 'type': 'normsys', 'data': {'hi': fr(rng.uniform(1.01, 1.3), 3), 'lo': fr(rng.uniform(0.7, 0.99), 3)}})
                 fixable.append(nm)
             for nm in rng.sample(['sys1', 'shape_a', 'JES'], rng.choice([0, 0, 1, 2])):
-                mods.append({'name': nm, 'type': 'histosys', 'data': {'hi_data': [round(x * rng.uniform(1.0, 1.2) + 0.1, 3) for x in data],
-                                                                        'lo_data': [round(x * rng.uniform(0.8, 1.0), 3) for x in data]}})
+                mods.append({'name': nm, 'type': 'histosys', 'data': {'hi_data': [fr(x * rng.uniform(1.0, 1.2) + 0.1 * scale, 3) for x in data],
+                                                                        'lo_data': [fr(x * rng.uniform(0.8, 1.0), 3) for x in data]}})
                 fixable.append(nm)
             if rng.random() < 0.5:
                 unc = [unc_of(x, 0.02, 0.2) for x in data]
@@ -469,27 +506,32 @@ def gen_ws_once(rng):
         channels.append({'name': cn, 'samples': samples})
     if lumi_used and not any(m['type'] == 'lumi' for c in channels for s in c['samples'] for m in s['modifiers']):
         channels[0]['samples'][0]['modifiers'].append({'name': 'lumi', 'type': 'lumi', 'data': None})
-    obs = [{'name': c['name'], 'data': [num(20, 200) if rng.random() < 0.9 else (0 if ints else 0.0) for _ in c['samples'][0]['data']]} for c in channels]
+    obs = [{'name': c['name'], 'data': [(float(rng.randrange(20, 200)) if full and rng.random() < 0.5 else num(20, 200)) if rng.random() < 0.9 else (0 if ints else 0.0)
+                                      for _ in c['samples'][0]['data']]} for c in channels]
     rng.shuffle(obs)
     nfs = sorted(set(nfs))
     fixable = sorted(set(fixable) | set(nfs))
     nm = rng.choice([1, 1, 2, 3])
     L0 = rng.choice([1.0, 2.0, 0.5, 1.5, 3.0, 0.8, 2])
+    if full and rng.random() < 0.6:
+        L0 = rng.choice([rng.uniform(0.4, 3.5), 1.0 / 0.9412, 36.1 / 13.3, 139.0 / 1.0624843789052736])
     nfcfg = {}
     for n in nfs:
         if rng.random() < 0.6:
             lo, hi = rng.choice([(0.0, 5.0), (-2.0, 7.5), (0.5, 20.0), (0, 10)])
+            if full and rng.random() < 0.6:
+                lo, hi = rng.uniform(-2.0, 0.9), rng.uniform(4.0, 25.0) * rng.choice([1.0, 1.0, 1.0e3 / 3])
             c = {'name': n}
             if rng.random() < 0.85:
                 c['bounds'] = [[lo, hi]]
             if rng.random() < 0.85:
-                c['inits'] = [round(rng.uniform(lo if lo > 0 else 0.1, hi / 2), 2)]
+                c['inits'] = [fr(rng.uniform(lo if lo > 0 else 0.1, hi / 2), 2)]
             nfcfg[n] = c
     meas = []
     for k in range(nm):
         ps = []
         L = L0 if rng.random() < 0.8 else rng.choice([1.0, 2.5, 0.7])
-        sg = round(rng.choice([0.02, 0.1, 0.017, 0.3]) * rng.choice([1.0, L]), 5)
+        sg = fr(rng.choice([0.02, 0.1, 0.017, 0.3]) * rng.choice([1.0, L]) * (rng.uniform(0.5, 1.5) if full else 1.0), 5)
         if lumi_used or rng.random() < 0.15:
             ps.append({'name': 'lumi', 'auxdata': [L], 'sigmas': [sg], 'bounds': [[round(L - 4 * sg, 4), round(L + 6 * sg, 4)]], 'inits': [L]})
         for n, c in nfcfg.items():
@@ -806,7 +848,7 @@ def history_failure(ops, pool, base):
             if r[0] != 'ok':
                 return i, 'import raised %s (%s) although the files on disk parse' % (r[1], r[2])
             if r[1] != fresh[1]:
-                dd = diff(normalise(struct_of(fresh[1])), normalise(struct_of(r[1])), 'ws')
+                dd = diff_ws(normalise(struct_of(fresh[1])), normalise(struct_of(r[1])))
                 return i, 'import returned something else than the files on disk hold: %s' % (dd or 'differs')
         elif fresh[0] == 'err':
             if r[0] != 'err':
@@ -851,10 +893,30 @@ def nontrivial(ws):
 def run(ctx):
     rng = ctx.rng
     tie = None
-    ok, txt = core.prove(ctx)
-    if not ok:
-        tie = 'proof obligations of props/C18.v no longer check: ' + txt[-1200:]
-    ctx.trusted += ['XML text layer (str()/float() of numbers, " ".join/split of parameter names), ElementTree, uproot and the ROOT '
+    try:
+        ctx.coverage['extracted_facts'] = extract(ctx)
+    except facts.TieBroken as e:
+        tie = ('translation of pyhf/writexml.py, readxml.py, compat.py to Gallina failed (harness/props/c18_tie.py; the source uses a construct outside '
+               'the reading the tie theorems are proved for): %s' % e)
+    if tie is None:
+        ok, txt = core.prove(ctx)
+        if not ok:
+            why = ('the functions translated from the source no longer coincide with the hand model (coq/TieXml.v, C18_source_is_model_*): '
+                   if ('TieXml' in txt or 'source_is_model' in txt or 'XmlGen' in txt) else 'proof obligations of props/C18.v no longer check: ')
+            tie = why + txt[-1200:]
+    if tie is not None:
+        # the hand model is run for the correspondence even when a tie theorem (or the translation) no longer checks
+        mrc, mout, _ = core.coq_make(['XmlInst.vo', 'Run.vo'])
+        if mrc != 0:
+            tie = tie + ' | the hand model does not build: ' + mout[-400:]
+    ctx.trusted += ['harness/props/c18_tie.py + harness/props/tie_translate.py + tie_translate_x5.py (python ast -> Gallina for writexml._make_hist_name / '
+                    '_export_root_histogram / build_modifier / build_sample / build_data / build_channel / build_measurement, readxml.import_root_histogram '
+                    '(key lookup and file cache) / clear_filecache / process_sample / process_data / process_channel / process_measurements / dedupe_parameters, '
+                    'compat.interpret_rootname / paramset_to_rootnames; fail '
+                    'closed): C18_source_is_model_* prove the translated definitions equal to the hand model of Xml.v / XmlCache.v; the reading of the '
+                    'python values (ET.Element / attribute dicts = the abstract AST, the ROOT file = association list of writes, the file cache = st_cache, '
+                    'numpy elementwise operations, which python failure is which error constructor) is stated in the header of coq/gen/XmlGen.v',
+                    'XML text layer (str()/float() of numbers, " ".join/split of parameter names), ElementTree, uproot and the ROOT '
                     'serialisation are outside the model; they are exercised by the real write/parse cycles only',
                     'harness/props/c18.py: workspace -> Gallina term printer, reference() (python transcription of what the property promises)']
     ctx.assumptions += ['a rewritten file differs from each of its earlier versions in (st_mtime_ns, st_size, st_ino) '
@@ -864,7 +926,7 @@ def run(ctx):
     found = False
     stats = dict(cycles=0, faults={}, outcomes={}, modifier_types={}, lumi_values={}, int_yield_cases=0, lossy_cases=0,
                  logpdf={}, measurements={}, guards_true=0, negative_yield_cases=0, negative_yield_with_binwise_uncertainty=0,
-                 zero_uncertainty_on_filled_bin=0, negative_uncertainty=0)
+                 zero_uncertainty_on_filled_bin=0, negative_uncertainty=0, full_precision_cases=0, small_or_large_magnitude_cases=0)
     sigs = set()
 
     # ---- cases: corpus + targeted first, then generated ----
@@ -925,6 +987,11 @@ def run(ctx):
         stats['negative_yield_with_binwise_uncertainty'] += any(n < 0 and x != 0 for x, n in binwise)
         stats['zero_uncertainty_on_filled_bin'] += any(n != 0 and x == 0 for x, n in binwise)
         stats['negative_uncertainty'] += any(x < 0 for x, n in binwise)
+        xmlnums = [v for ch in ws['channels'] for s in ch['samples'] for m in s['modifiers'] if m['type'] == 'normsys' for v in (m['data']['hi'], m['data']['lo'])] + \
+                  [v for m in ws['measurements'] for p in m['config']['parameters'] for k in ('auxdata', 'sigmas', 'inits') for v in p.get(k, [])]
+        stats['full_precision_cases'] += any(isinstance(v, float) and len(repr(v)) > 12 for v in xmlnums)
+        yields = [abs(x) for ch in ws['channels'] for s in ch['samples'] for x in s['data'] if x != 0]
+        stats['small_or_large_magnitude_cases'] += bool(yields) and (max(yields) < 0.1 or min(yields) > 1000)
         if c['fault'] is None:
             real, f = check_cycle(ctx, ws, d, rng, c['label'])
             found = found or f
@@ -956,7 +1023,7 @@ def run(ctx):
                 mdesc = 'ok'
                 ok_match = real['outcome'] == 'ok'
                 if ok_match:
-                    dd = diff(normalise(rr[1]), normalise(struct_of(real['ws'])), 'ws')
+                    dd = diff_ws(normalise(rr[1]), normalise(struct_of(real['ws'])))
                     if dd:
                         ok_match = False
                         mdesc = 'ok but ' + dd
@@ -1042,7 +1109,7 @@ def run(ctx):
                 if mr[0] == 'err':
                     okm = r[0] == 'err' and r[1] in ERR_CLASSES[mr[1]]
                 else:
-                    okm = r[0] == 'ok' and diff(normalise(mr[1]), normalise(struct_of(r[1])), 'ws') is None
+                    okm = r[0] == 'ok' and diff_ws(normalise(mr[1]), normalise(struct_of(r[1]))) is None
                 if not okm:
                     hdis.append((label, i, mr[0], r[0]))
     if hdis and not found:
